@@ -7,6 +7,13 @@ ROOT = os.path.dirname(os.path.dirname(os.path.abspath(__file__)))
 ALL = ["C%02d" % i for i in range(1, 20)]
 
 CHECKS = {
+    "C18": {
+        "spec": "specs/YamlSafety.tla + YamlSafetyTrace.tla",
+        "text": "YamlSafety.tla abstracts a document to the sequence of its tagged nodes and the loader to the set of non-plugin tag kinds its class has constructors for; that set is probed from the real COBalDLoader at check time, so a loader that is not a SafeLoader makes the model itself violate OnlyRegistered. TLC checks OnlyRegistered / BadIsRejected over all enumerated documents (19 tag kinds x named targets x 11 positions x argument shapes; thorough: two bad nodes) and emits them; each is rendered to YAML and loaded by the real load() in sub-processes armed with canaries (recording callable / class, import hook, marker file, patched plugin class); what fired and the outcome are validated by TLC.",
+        "note": "side effects are only visible through the canaries; positions and tag kinds are the enumerated ones; one known finding (tag on a merge-key value is ignored, not rejected - harmless).",
+        "design": "5/C18, 4.14",
+        "technique": "TLA+ model checking (TLC) with the loader's constructor table probed from the real class + TLC-enumerated documents loaded by the real code under canaries + trace validation",
+    },
     "C17": {
         "spec": "specs/LineProtocol.tla + LineProtocolTrace.tla, specs/JsonMerge.tla + JsonMergeTrace.tla",
         "text": "LineProtocol.tla contains a transcription of the encoder and an independent reference decoder written from the InfluxDB grammar; TLC enumerates records over an 8-class alphabet (every character special to the protocol) in every string position, all value kinds, whitelist/default/override configurations and time/resolution pairs, checks Parse(Format(r)) = r on the model and emits every record; each record (and random longer ones) is formatted by the real LineProtocolFormatter through a LogRecord (every second time after an earlier record on the same formatter) and TLC applies the reference decoder to the observed text. JsonMerge.tla does the same for the JSON formatter's merge order over colliding key sets.",
